@@ -50,48 +50,7 @@ Proof.
     assert ((stop - start) / dt * dt == stop - start) by (field; lra). lra.
 Qed.
 
-(* ------------------------------------------------------------------ calendar: finite sweep over 1970-01-01 .. 2070-12-31 *)
-Definition sweep_lo : Z := 0.          (* 1970-01-01 *)
-Definition sweep_n : nat := 36890.     (* number of days up to 2070-12-31 *)
-Definition sweep : list Z := map (fun i => sweep_lo + Z.of_nat i)%Z (seq 0 sweep_n).
-
-Definition civil_ok (z : Z) : bool :=
-  let '(y, m, d) := civil_from_days z in
-  andb (days_from_civil y m d =? z)%Z (andb (1 <=? m)%Z (andb (m <=? 12)%Z (andb (1 <=? d)%Z (d <=? 31)%Z))).
-
-Lemma sweep_civil : forallb civil_ok sweep = true.
-Proof. vm_cast_no_check (eq_refl true). Qed.
-
-Theorem civil_roundtrip_bounded z : (sweep_lo <= z < sweep_lo + Z.of_nat sweep_n)%Z ->
-  let '(y, m, d) := civil_from_days z in days_from_civil y m d = z /\ (1 <= m <= 12)%Z /\ (1 <= d <= 31)%Z.
-Proof.
-  intros H. pose proof sweep_civil as S. rewrite forallb_forall in S.
-  assert (Hin : In z sweep).
-  { unfold sweep. apply in_map_iff. exists (Z.to_nat (z - sweep_lo)). split; [lia|]. apply in_seq. lia. }
-  specialize (S z Hin). unfold civil_ok in S. destruct (civil_from_days z) as [[y m] d].
-  apply andb_prop in S as [A S]. apply andb_prop in S as [B S]. apply andb_prop in S as [C S]. apply andb_prop in S as [D E].
-  apply Z.eqb_eq in A. apply Z.leb_le in B, C, D, E. lia.
-Qed.
-
-(* the year representation is strictly increasing from one day to the next (same bounded range) *)
-Definition year_mono_ok (z : Z) : bool := Qltb (date_to_year (z + ord_epoch)) (date_to_year (z + 1 + ord_epoch)).
-Definition sweep2_lo : Z := 7305.      (* 1990-01-01 *)
-Definition sweep2_n : nat := 14975.    (* up to 2030-12-31 *)
-Definition sweep2 : list Z := map (fun i => sweep2_lo + Z.of_nat i)%Z (seq 0 sweep2_n).
-Lemma sweep_year_mono : forallb year_mono_ok sweep2 = true.
-Proof. vm_cast_no_check (eq_refl true). Qed.
-
-Theorem date_to_year_increasing_bounded z : (sweep2_lo <= z < sweep2_lo + Z.of_nat sweep2_n)%Z ->
-  date_to_year (z + ord_epoch) < date_to_year (z + 1 + ord_epoch).
-Proof.
-  intros H. pose proof sweep_year_mono as S. rewrite forallb_forall in S.
-  assert (Hin : In z sweep2).
-  { unfold sweep2. apply in_map_iff. exists (Z.to_nat (z - sweep2_lo)). split; [lia|]. apply in_seq. lia. }
-  specialize (S z Hin). unfold year_mono_ok, Qltb in S.
-  destruct (Qle_bool (date_to_year (z + 1 + ord_epoch)) (date_to_year (z + ord_epoch))) eqn:E; [discriminate|].
-  destruct (Qlt_le_dec (date_to_year (z + ord_epoch)) (date_to_year (z + 1 + ord_epoch))); [assumption|].
-  apply Qle_bool_iff in q. congruence.
-Qed.
+(* calendar arithmetic: see Proofs/P_Calendar.v (every day number, by one-era sweep + era periodicity) *)
 
 (* ------------------------------------------------------------------ calendar grids *)
 Lemma date_steps_spec fuel : forall cur stop step, (0 < step)%Z ->
